@@ -39,11 +39,14 @@ THEOREM_CLASSES = {
     "C18_body_receives_arguments": "main", "C18_body_return_delivers_values": "main",
     "C18_invalid_transitions": "main", "C18_error_unchanged": "main", "C18_registered_while_alive": "tripwire",
     "C18_destroy_behaviour": "main", "C18_refused_resume_unchanged": "corollary", "C18_gen_facts": "tripwire",
+    "C18_destroy_order_needed": "refutation", "C18_resume_rollback_needed": "refutation",
 }
 UNPROVED = [
     "the context switch itself (_mco_switch, assembly) and 'local variables of every suspended frame are intact when it continues': no model; observed on every run through per-frame scalar canaries AND, in GC builds, through GC values (a `new`ed block with a finalizer, a concatenated string, a vector buffer) whose only reference is a local of the frame (level frames at every depth, the body functions themselves, the workers of `sub`), re-checked after every switch and at frame exit, with collections and allocation churn (`gc`, `sub`) in between; the finalizer reports a block collected while its frame is alive",
     "model = code: established by differential correspondence on generated schedules only (NSLOTS = 24, resume chains <= 24, frame depth <= 8 on the tested side; the theorems have no such bounds)",
-    "the reference semantics Spec.v (stack of active resumes, suspended/dead flag, LIFO byte storage; written from the documentation) is refined by the model for EVERY command incl. printed lines (C18_refines_spec); what the refinement does not give: Spec.v's storage is the byte list (typed values are byte lists with their sizes, no value-level typing), its multi-value pop and the panics of the typed wrapper are by definition what the code does (documented), `sub`/`gc` are transcript-only in both, and the older invariant/transition theorems are proved directly on the model, not re-derived from the spec",
+    "the reference semantics Spec.v (stack of active resumes, suspended/dead flag, LIFO byte storage; written from the documentation) is refined by the model for EVERY command incl. printed lines (C18_refines_spec); three points of Spec.v are CODE-DEFINED, i.e. by definition what the code does and not an independent reading of the documentation: (1) the remainder of a multi-value coroutine.pop that fails midway (what was popped stays popped: 'the values may not be set'), (2) the order 'push the arguments, then check the state' of resume/yield with arguments (which error is reported when both the push and the state check would fail), (3) the panics of the typed wrapper (partial pops/pushes before 'failed to pop a coroutine body argument' / 'failed to push a coroutine body return'); storage is the byte list (no value-level typing); `sub`/`gc` are transcript-only in both; the older invariant/transition theorems are proved directly on the model, not re-derived from the spec",
+    "GC_REGISTERS_WHOLE_CORO_BLOCK (the size expression passed to gc:register in coroutine.create is desc.coro_size) is a TRIPWIRE only: it enters one conjunct of C18_gen_facts and no other theorem; that the collector really scans the outermost frames of a coroutine is tested only (GC values owned by frames, finalizer signal, churn); likewise C18_registered_while_alive says nothing about gc.nelua",
+    "DESTROY_UNREGISTERS_FIRST and RESUME_ROLLS_BACK_ARGS are used by the proofs through fact lemmas; C18_destroy_order_needed / C18_resume_rollback_needed show (witness by vm_compute) that the error-leaves-state-unchanged statements are false under the other policy of each flag",
     "no open finding: the two repaired defects (destroy order 1075c3a, refused resume with arguments 6a782fc) are modelled as repaired, under scraped flags with fact lemmas (C18_gen_facts), so a revert breaks proofs and their witness schedules (replayed on every run in every build) fail the strict reference; the single exclusion left in C18_error_unchanged is the documented multi-value coroutine.pop (next item)",
     "documented limit, not a finding: a coroutine.pop of several values that fails midway keeps what it popped ('the values may not be set', 'the user is responsible to always use the right types and push/pop order and count'): C18_pop_effect states it exactly; corpus/C18/multipop_partial.txt replays it",
     "GC lifecycle: only the registration flag is modelled (C18_registered_while_alive is a trip-wire for the repaired destroy order, it proves nothing about gc.nelua); `forget k` drops the only handle of a suspended/dead coroutine and collects (finalizer path coroutine_gc -> destroy -> gc:unregister): the model just removes the object; whether/when the collector finalizes it (conservative retention) is not modelled, the harness accepts 'gc.items shrinks by at most the number of forgotten coroutines, or stays' and no abort; `gc` and `sub` are identities on the model state (sub_lines is the expected transcript, not a model)",
@@ -54,8 +57,8 @@ UNPROVED = [
     "the ASan build skips schedules that destroy/close/forget a coroutine suspended inside its body (stale shadow poison after munmap gives false positives); --release and ASan only in the thorough tier",
 ]
 MANIFEST_ENTRY = {
-    "text": "proof, partial: theorems over all command histories of an executable model of coroutine.nelua + minicoro: the model REFINES a reference semantics written from the documentation (Spec.v: stack of active resumes, per-coroutine suspended/dead flag and LIFO storage) for every command, same abstract state and same printed results (C18_refines_spec); moreover exactly one Running coroutine = current, Normal = the acyclic prev chain down to main, Suspended/Dead have no resumer; the documented transition of every operation (resume, yield, body return, destroy, quiet commands, failed calls) and Dead absorbing; LIFO byte storage within capacity with zeroed tail, storage frame (a command changes only the storage it addresses), typed push/pop round trip, all-or-nothing push, exact effect of a failing multi-value pop; values and typed body arguments/returns cross resume/yield unmodified; every failed call of the library returns the documented error and leaves the whole state unchanged, with the single documented exclusion of a multi-value coroutine.pop failing midway (C18_error_unchanged, C18_pop_effect); resting on differential testing only: that the model is the code (schedule-by-schedule correspondence of the extracted model and of an independent reference against the real library, gc/nogc/release/ASan builds), the context switch and intactness of suspended frames (canaries), the GC lifecycle of coroutines (finalizer path, stack scanning after failed transitions)",
-    "note": "trusted: Coq kernel, regex scrapes into Gen.v, ExtrOcamlBasic extraction, coq/C18/codriver.ml + glue.ml, harness/C18/codriver.nelua, harness/C18/oracle.py, gcc; Spec.v itself (hand-written reading of the documentation, also extracted and run); assumes zero-initialised coroutine memory, little-endian value layout, no stack overflow; lib/allocators/gc.nelua itself is property C10's model (here only the registration flag)",
+    "text": "proof, partial: theorems over all command histories of an executable model of coroutine.nelua + minicoro: the model REFINES a reference semantics written from the documentation (Spec.v: stack of active resumes, per-coroutine suspended/dead flag and LIFO storage) for every command, same abstract state and same printed results (C18_refines_spec); moreover exactly one Running coroutine = current, Normal = the acyclic prev chain down to main, Suspended/Dead have no resumer; the documented transition of every operation (resume, yield, body return, destroy, quiet commands, failed calls) and Dead absorbing; LIFO byte storage within capacity with zeroed tail, storage frame (a command changes only the storage it addresses), typed push/pop round trip, all-or-nothing push, exact effect of a failing multi-value pop; values and typed body arguments/returns cross resume/yield unmodified; every failed call of the library returns the documented error and leaves the whole state unchanged, with the single documented exclusion of a multi-value coroutine.pop failing midway (C18_error_unchanged, C18_pop_effect); tripwires only: the GC registration flag/size (C18_registered_while_alive, GC_REGISTERS_WHOLE_CORO_BLOCK in C18_gen_facts); resting on differential testing only: that the model is the code (schedule-by-schedule correspondence of the extracted model and of an independent reference against the real library, gc/nogc/release/ASan builds), the context switch and intactness of suspended frames (canaries), the GC lifecycle of coroutines (finalizer path, stack scanning after failed transitions)",
+    "note": "trusted: Coq kernel, regex scrapes into Gen.v, ExtrOcamlBasic extraction, coq/C18/codriver.ml + glue.ml, harness/C18/codriver.nelua, harness/C18/oracle.py, gcc; Spec.v itself (hand-written reading of the documentation, with three declared code-defined points; also extracted and compared with the implementation and with the model on every schedule); assumes zero-initialised coroutine memory, little-endian value layout, no stack overflow; lib/allocators/gc.nelua itself is property C10's model (here only the registration flag)",
     "technique": "machine-checked proof in Coq over an executable model + regenerated parameters + extracted-model/implementation correspondence on generated schedules with an independent reference oracle",
 }
 ASSUMPTIONS = [
@@ -75,6 +78,49 @@ HARNESS = os.path.join(HDIR, "codriver.nelua")
 # ---------------------------------------------------------------------------- gen
 def _coq_str(s):
     return '"' + s.replace('"', '""') + '"'
+
+
+def strip_nelua_comments(src):
+    """remove `--[=*[ ... ]=*]` and `-- ... <eol>` comments of Nelua/Lua source; string literals ('..', "..", [=*[..]=*]) are
+    copied untouched, so that a commented-out old line can never satisfy a scrape (preprocessor `##` lines are code)"""
+    out = []
+    i, n = 0, len(src)
+    while i < n:
+        c = src[i]
+        if src.startswith("--", i):
+            m = re.match(r"--\[(=*)\[", src[i:])
+            if m:
+                end = src.find("]" + m.group(1) + "]", i + len(m.group(0)))
+                j = n if end < 0 else end + len(m.group(1)) + 2
+                out.append("\n" * src.count("\n", i, j))
+                i = j
+            else:
+                j = src.find("\n", i)
+                i = n if j < 0 else j
+        elif c in "'\"":
+            j = i + 1
+            while j < n and src[j] != c and src[j] != "\n":
+                j += 2 if src[j] == "\\" else 1
+            out.append(src[i:j + 1])
+            i = j + 1
+        elif c == "[" and re.match(r"\[(=*)\[", src[i:]):
+            m = re.match(r"\[(=*)\[", src[i:])
+            end = src.find("]" + m.group(1) + "]", i + len(m.group(0)))
+            j = n if end < 0 else end + len(m.group(1)) + 2
+            out.append(src[i:j])
+            i = j
+        else:
+            out.append(c)
+            i += 1
+    return "".join(out)
+
+
+def strip_c_comments(src):
+    """remove /* ... */ and // ... comments of the C code embedded in minicoro.nelua (string literals untouched)"""
+    def rep(m):
+        t = m.group(0)
+        return t if t.startswith('"') else "\n" * t.count("\n")
+    return re.sub(r'"(?:\\.|[^"\\\n])*"|/\*.*?\*/|//[^\n]*', rep, src, flags=re.S)
 
 
 def _c_enum(src, name):
@@ -110,9 +156,11 @@ def _nelua_enum(src, name):
 
 
 def gen(ctx):
-    mc = vlib.repo_read("lib/detail/minicoro.nelua")
-    co = vlib.repo_read("lib/coroutine.nelua")
-    gcsrc = vlib.repo_read("lib/allocators/gc.nelua")
+    # comments are removed first: a commented-out line must not satisfy (or hide) a scrape
+    mc_raw = vlib.repo_read("lib/detail/minicoro.nelua")
+    mc = strip_c_comments(mc_raw)                       # the C library lives in a long string of this file
+    co = strip_nelua_comments(vlib.repo_read("lib/coroutine.nelua"))
+    gcsrc = strip_nelua_comments(vlib.repo_read("lib/allocators/gc.nelua"))
     out = {}
     states = _c_enum(mc, "mco_state")
     results = _c_enum(mc, "mco_result")
@@ -767,7 +815,7 @@ def correspond(ctx):
     evaluations = 0
     nontrivial = set()
     n_oracle = n_mismatch = 0
-    n_spec = n_specdiff = 0
+    n_spec = n_specdiff = n_specimpl = n_specimpl_diff = 0
     n_runs = 0
     samples = []
     err_hist = {}
@@ -800,7 +848,8 @@ def correspond(ctx):
             # the extracted reference semantics of Spec.v: proved equal to the model's transcript (C18_refines_spec_history);
             # compared here as well, so that oracle.py is not the only executable reference
             n_spec += 1
-            ds = first_diff(mlines, norm_expected(slines))
+            slines_n = norm_expected(slines)
+            ds = first_diff(mlines, slines_n)
             ncmd = sum(1 for l in ilines if l.startswith("> "))
             evaluations += ncmd
             chain = 0
@@ -828,6 +877,7 @@ def correspond(ctx):
                         if d2 is not None:
                             sc, ilines, exp, d = small, il2, exp2, d2
                             mlines = norm_expected(run_model(model, [small], gcmode)[0])
+                            slines_n = norm_expected(run_model(model, [small], gcmode, spec=True)[0])
                     i, got, want = d
                     ci = cmd_of_line(ilines, i)
                     path = os.path.join(ctx.work, "fail-%s-%s.txt" % (tag, name.replace("/", "_")))
@@ -838,9 +888,23 @@ def correspond(ctx):
                                   (tag, name, ci, sc[ci] if 0 <= ci < len(sc) else "?", got[:200], want[:200]),
                                   detail={"schedule": sc, "first_difference_at_output_line": i, "implementation": ilines[max(0, i - 3):i + 2],
                                           "oracle": exp[max(0, i - 3):i + 2], "model_agrees_with_implementation": first_diff(ilines, mlines) is None,
+                                          "spec_agrees_with_implementation": first_diff(ilines, slines_n) is None,
                                           "schedule_file": path,
                                           "replay": "nelua %s -b harness/C18/codriver.nelua -o cod && ./cod < %s" % (" ".join(extra), path)})
                 continue
+            # (b) the extracted reference semantics against the IMPLEMENTATION, directly
+            n_specimpl += 1
+            dsi = first_diff(ilines, norm_expected(slines))
+            if dsi is not None:
+                n_specimpl_diff += 1
+                if n_specimpl_diff <= 3:
+                    i, got, want = dsi
+                    ci = cmd_of_line(ilines, i)
+                    ctx.violation("spec-vs-implementation:%s" % name.split("-")[0].split("/")[0], "correspondence",
+                                  "%s build, schedule %s, command %d (%s): implementation prints '%s', the extracted reference semantics (Spec.v) prints '%s' (the Python reference agrees with the implementation on this schedule)" %
+                                  (tag, name, ci, sc[ci] if 0 <= ci < len(sc) else "?", got[:200], want[:200]),
+                                  detail={"schedule": sc, "line": i, "no_longer_checks": "Spec.v vs implementation, stream C18/" + name.split("-")[0]},
+                                  failing_input=False)
             if ds is not None and n_specdiff < 2:
                 n_specdiff += 1
                 ctx.violation("spec-transcript:%s" % name.split("-")[0].split("/")[0], "correspondence",
@@ -889,6 +953,8 @@ def correspond(ctx):
                          **dist, "error_results": err_hist},
         "forgotten_coroutines_collected_at_once": FORGET_STATS.get("collected", 0),
         "spec_transcripts_compared": n_spec,
+        "spec_vs_implementation_compared": n_specimpl,
+        "spec_vs_implementation_differences": n_specimpl_diff,
         "oracle_failures": n_oracle,
         "model_mismatches": n_mismatch,
         "traces_validated_against_impl": n_runs,
